@@ -10,7 +10,7 @@
 //!   stmt  ::= (decl TY NAME [e]) | (asg OP var e) | (call OPCODE e...) | (block s...)
 //!           | (if KW c (s...) [(s...)]) | (while c (s...)) | (dowhile c (s...)) | (times e (s...))
 //!           | (timesc var e (s...)) | (loop (s...)) | (break) | (goto L [T]) | (label L)
-//!           | (ifgoto KW c L) | (wait N) | (anti) | (diff "MASK" stmt)
+//!           | (ifgoto KW c L [T]) | (wait N) | (anti) | (diff "MASK" stmt)
 #![allow(dead_code)]
 
 use crate::rng::Rng;
@@ -47,6 +47,13 @@ pub const T_COUNT_GT: u32 = 16;       // CountJmp(op=">") instead of CountJmp()
 pub const T_TIME_FIRST: u32 = 32;     // jump arguments `to` instead of `ot`
 pub const T_BOTH_COUNT: u32 = 64;     // both count jumps
 pub const T_NO_MATH: u32 = 128;       // no sin/cos/sqrt
+pub const T_FEW_COND: u32 = 256;      // native conditional jumps only for `==` `<` `>=` (with T_TWO_PART: next to the pair)
+pub const T_NO_COND: u32 = 512;       // no native conditional jump at all
+pub const T_NO_COUNT: u32 = 1024;     // no counting jump
+pub const T_NO_JMP: u32 = 2048;       // no unconditional jump
+pub const T_LOC_ONLY: u32 = 4096;     // jump instructions have an offset but no time argument (`o`, like TH06 ANM `ins_5`)
+/// the comparisons that keep their native conditional jump under T_FEW_COND
+pub const FEW_COND: &[&str] = &["eq", "lt", "ge"];
 
 pub const OP_JMP: u16 = 1;
 pub const OP_COUNT_NE: u16 = 2;
@@ -95,7 +102,7 @@ pub fn plain_opcode(sig: &str) -> u16 { OP_PLAIN + plain_sigs().iter().position(
 
 /// opcode -> signature string, for decoding the emitted blobs
 pub fn signatures(table: u32) -> BTreeMap<u16, String> {
-    let j = if table & T_TIME_FIRST != 0 { "to" } else { "ot" };
+    let j = if table & T_LOC_ONLY != 0 { "o" } else if table & T_TIME_FIRST != 0 { "to" } else { "ot" };
     let mut m = BTreeMap::new();
     m.insert(OP_JMP, j.to_string());
     m.insert(OP_COUNT_NE, format!("S{j}"));
@@ -124,9 +131,11 @@ pub fn mapfile(table: u32) -> String {
     lines.push("!ins_signatures".into());
     for (op, s) in &sigs { lines.push(format!("{op} {s}")); }
     lines.push("!ins_intrinsics".into());
-    lines.push(format!("{OP_JMP} Jmp()"));
-    if table & T_COUNT_GT == 0 || table & T_BOTH_COUNT != 0 { lines.push(format!("{OP_COUNT_NE} CountJmp()")); }
-    if table & T_COUNT_GT != 0 || table & T_BOTH_COUNT != 0 { lines.push(format!("{OP_COUNT_GT} CountJmp(op=\">\")")); }
+    if table & T_NO_JMP == 0 { lines.push(format!("{OP_JMP} Jmp()")); }
+    if table & T_NO_COUNT == 0 {
+        if table & T_COUNT_GT == 0 || table & T_BOTH_COUNT != 0 { lines.push(format!("{OP_COUNT_NE} CountJmp()")); }
+        if table & T_COUNT_GT != 0 || table & T_BOTH_COUNT != 0 { lines.push(format!("{OP_COUNT_GT} CountJmp(op=\">\")")); }
+    }
     for (k, op) in ASSIGN_OPS.iter().enumerate() {
         if k > 0 && table & T_NO_ASSIGN_OPS != 0 { continue; }
         lines.push(format!("{} AssignOp(op=\"{op}\"; type=\"int\")", OP_ASSIGN + 2 * k as u16));
@@ -138,13 +147,15 @@ pub fn mapfile(table: u32) -> String {
         if !removed_int { lines.push(format!("{} BinOp(op=\"{op}\"; type=\"int\")", OP_BINOP + 2 * k as u16)); }
         if float_binop_ok(name) && !removed_float { lines.push(format!("{} BinOp(op=\"{op}\"; type=\"float\")", OP_BINOP + 2 * k as u16 + 1)); }
     }
-    if table & T_TWO_PART == 0 {
+    if (table & T_TWO_PART == 0 || table & T_FEW_COND != 0) && table & T_NO_COND == 0 {
         for (k, name) in CMP_OPS.iter().enumerate() {
+            if table & T_FEW_COND != 0 && !FEW_COND.contains(name) { continue; }
             let op = binop_text(name);
             lines.push(format!("{} CondJmp(op=\"{op}\"; type=\"int\")", OP_CONDJMP + 2 * k as u16));
             lines.push(format!("{} CondJmp(op=\"{op}\"; type=\"float\")", OP_CONDJMP + 2 * k as u16 + 1));
         }
-    } else {
+    }
+    if table & T_TWO_PART != 0 {
         lines.push(format!("{OP_CMP} DedicatedCmp(type=\"int\")"));
         lines.push(format!("{} DedicatedCmp(type=\"float\")", OP_CMP + 1));
         for (k, name) in CMP_OPS.iter().enumerate() { lines.push(format!("{} DedicatedCmpJmp(op=\"{}\")", OP_CMPJMP + k as u16, binop_text(name))); }
@@ -266,7 +277,10 @@ pub fn stmt_text(n: &dyn RegNames, s: &Sexp, ind: usize, out: &mut String) {
         "break" => out.push_str(&format!("{pad}break;\n")),
         "goto" => match a.get(1) { Some(t) => out.push_str(&format!("{pad}goto {} @ {};\n", a[0].as_atom(), t.as_i64())), None => out.push_str(&format!("{pad}goto {};\n", a[0].as_atom())) },
         "label" => out.push_str(&format!("{}:\n", a[0].as_atom())),
-        "ifgoto" => out.push_str(&format!("{pad}{} ({}) goto {};\n", a[0].as_atom(), expr_text(n, &a[1]), a[2].as_atom())),
+        "ifgoto" => match a.get(3) {
+            Some(t) => out.push_str(&format!("{pad}{} ({}) goto {} @ {};\n", a[0].as_atom(), expr_text(n, &a[1]), a[2].as_atom(), t.as_i64())),
+            None => out.push_str(&format!("{pad}{} ({}) goto {};\n", a[0].as_atom(), expr_text(n, &a[1]), a[2].as_atom())),
+        },
         "wait" => out.push_str(&format!("+{}:\n", a[0].as_i64())),
         "anti" => out.push_str(&format!("{pad}ins_{OP_ANTI}();\n")),
         "diff" => { out.push_str(&format!("{pad}{{\"{}\"}}: ", a[0].as_atom())); let mut inner = String::new(); stmt_text(n, &a[1], 0, &mut inner); out.push_str(&inner); },
@@ -460,6 +474,32 @@ pub fn instr_sexp(sigs: &BTreeMap<u16, String>, ins: &llir::RawInstr) -> Sexp {
     Sexp::app("ins", v)
 }
 
+/// The emitted stream with every jump-offset argument (`o` in the signature) replaced by `(label K)`, K = the
+/// position in the stream of the instruction that starts at that byte offset (the stream length for the end).
+/// Under `TestLanguage` an instruction occupies 4 header bytes + its argument blob and offsets are absolute.
+pub fn instrs_sexp_labels(sigs: &BTreeMap<u16, String>, instrs: &[llir::RawInstr]) -> Vec<Sexp> {
+    let mut offsets = vec![];
+    let mut off = 0u64;
+    for i in instrs { offsets.push(off); off += 4 + i.args_blob.len() as u64; }
+    offsets.push(off);
+    instrs.iter().map(|ins| {
+        let mut v = vec![Sexp::int(ins.time), Sexp::int(ins.opcode), Sexp::int(ins.difficulty as i64)];
+        match (decode_instr(sigs, ins), sigs.get(&ins.opcode)) {
+            (Some(args), Some(sig)) => for (a, c) in args.iter().zip(sig.chars()) {
+                match (c, a) {
+                    ('o', DArg::Int(w)) => match offsets.iter().position(|&o| o == *w as u32 as u64) {
+                        Some(k) => v.push(Sexp::app("label", vec![Sexp::int(k as i64)])),
+                        None => v.push(Sexp::app("label-inside-instruction", vec![Sexp::int(*w)])),
+                    },
+                    _ => v.push(darg_sexp(a)),
+                }
+            },
+            _ => v.push(Sexp::atom("undecodable")),
+        }
+        Sexp::app("ins", v)
+    }).collect()
+}
+
 pub fn value_sexp(v: &ScalarValue) -> Sexp {
     match v {
         ScalarValue::Int(i) => Sexp::app("i", vec![Sexp::int(*i)]),
@@ -507,6 +547,8 @@ pub struct BodyGen<'a> {
     pub predec_ne: bool,
     pub predec_gt: bool,
     pub casts: bool,
+    /// conditions of ternaries take every shape a jump condition can have (bodies for the jump model)
+    pub jump_model: bool,
     /// locals in scope: (name, is_float)
     scope: Vec<Vec<(String, bool)>>,
     next_local: usize,
@@ -528,7 +570,8 @@ impl<'a> BodyGen<'a> {
         rf.ints.truncate(ki);
         rf.floats.truncate(kf);
         let (ne, gt) = (o.table & T_COUNT_GT == 0 || o.table & T_BOTH_COUNT != 0, o.table & (T_COUNT_GT | T_BOTH_COUNT) != 0);
-        BodyGen { rng, o, rf, real_ops: false, predec_ne: ne, predec_gt: gt, casts: true, scope: vec![vec![]], next_local: 0, next_label: 0, frozen: vec![], in_loop: 0 } }
+        let (ne, gt) = (ne && o.table & T_NO_COUNT == 0, gt && o.table & T_NO_COUNT == 0);
+        BodyGen { rng, o, rf, real_ops: false, predec_ne: ne, predec_gt: gt, casts: true, jump_model: false, scope: vec![vec![]], next_local: 0, next_label: 0, frozen: vec![], in_loop: 0 } }
 
     pub fn add_param(&mut self, name: &str, float: bool) { self.scope[0].push((name.to_string(), float)); }
 
@@ -575,7 +618,7 @@ impl<'a> BodyGen<'a> {
     /// condition of a ternary: never a constant (constant folding would drop the untaken branch and the
     /// registers named in it)
     fn tern_cond(&mut self, d: u32) -> Sexp {
-        let c = if self.real_ops { self.cond(1) } else { self.expr(false, d) };
+        let c = if self.real_ops || (self.jump_model && self.rng.chance(1, 2)) { self.cond(1) } else { self.expr(false, d) };
         if has_var(&c) { c } else { Sexp::app("bin", vec![Sexp::atom("ne"), self.reg(false), c]) }
     }
     fn nonzero_int_leaf(&mut self) -> Sexp { let mut v = self.rng.range(1, 9) as i32; if self.rng.chance(1, 3) { v = -v; } Sexp::app("i", vec![Sexp::int(v)]) }
@@ -850,6 +893,93 @@ impl<'a> BodyGen<'a> {
             let e = self.expr(fl, ed);
             out.push(Sexp::app("asg", vec![Sexp::atom(op), var, e]));
         }
+    }
+
+    /// a counting-jump condition: `--x`, `--x != 0`, `--x > 0` (mostly a form the table has)
+    fn predec_cond(&mut self) -> Sexp {
+        let var = self.assignable(false);
+        let pre = Sexp::app("predec", vec![var]);
+        let want_gt = if self.rng.chance(1, 8) || (!self.predec_gt && !self.predec_ne) { self.rng.chance(1, 2) } else if self.predec_gt && self.predec_ne { self.rng.chance(1, 2) } else { self.predec_gt };
+        if want_gt { Sexp::app("bin", vec![Sexp::atom("gt"), pre, Sexp::app("i", vec![Sexp::int(0)])]) }
+        else if self.rng.chance(1, 2) { pre } else { Sexp::app("bin", vec![Sexp::atom("ne"), pre, Sexp::app("i", vec![Sexp::int(0)])]) }
+    }
+
+    /// a jump condition of a chosen shape
+    fn jump_cond(&mut self, depth: u32) -> Sexp {
+        let d = depth;
+        match self.rng.below(14) {
+            // comparison of complex operands, int or float
+            0..=3 => { let fl = self.rng.chance(1, 3); let op = *self.rng.pick(CMP_OPS); let a = self.expr(fl, d); let b = self.expr(fl, d); Sexp::app("bin", vec![Sexp::atom(op), a, b]) },
+            // comparison with one simple side
+            4 => { let fl = self.rng.chance(1, 3); let op = *self.rng.pick(CMP_OPS); let a = self.leaf(fl); let b = self.expr(fl, d.max(1)); if self.rng.chance(1, 2) { Sexp::app("bin", vec![Sexp::atom(op), a, b]) } else { Sexp::app("bin", vec![Sexp::atom(op), b, a]) } },
+            // nested logic
+            5..=7 => { let op = *self.rng.pick(&["lor", "land"]); let a = self.jump_cond(d.saturating_sub(1)); let b = self.jump_cond(d.saturating_sub(1)); Sexp::app("bin", vec![Sexp::atom(op), a, b]) },
+            8 | 9 => Sexp::app("un", vec![Sexp::atom("not"), self.jump_cond(d.saturating_sub(1))]),
+            // constants
+            10 => if self.rng.chance(1, 2) { Sexp::app("i", vec![Sexp::int(self.small_or_boundary_int())]) } else { let op = *self.rng.pick(CMP_OPS); Sexp::app("bin", vec![Sexp::atom(op), Sexp::app("i", vec![Sexp::int(self.rng.range(-2, 3))]), Sexp::app("i", vec![Sexp::int(self.rng.range(-2, 3))])]) },
+            // a leaf
+            11 => self.leaf(false),
+            // any integer expression (non-comparison operators, casts, ternaries, switches)
+            _ => self.expr(false, d.max(1)),
+        }
+    }
+
+    /// Body for the jump model: labels, `if|unless (c) goto L [@ t]`, `goto L [@ t]`, counting jumps, mixed with
+    /// declarations / assignments / calls (ternaries in their expressions), relative time labels and nested blocks.
+    pub fn jump_body(&mut self, n: usize) -> Vec<Sexp> {
+        let nlabels = 1 + self.rng.below(3);
+        let labels: Vec<String> = (0..nlabels).map(|_| self.fresh_label()).collect();
+        let mut pending: Vec<String> = labels.clone();
+        self.rng.shuffle(&mut pending);
+        let mut out = vec![];
+        let total = n + nlabels;
+        for k in 0..total {
+            // place the remaining labels at random positions (all of them by the end)
+            let left = total - k;
+            if !pending.is_empty() && (self.rng.below(left) < pending.len()) {
+                let l = pending.pop().unwrap();
+                out.push(Sexp::app("label", vec![Sexp::atom(l)]));
+                continue;
+            }
+            let l = self.rng.pick(&labels).clone();
+            let time = if self.rng.chance(1, 4) { Some(Sexp::int(self.rng.range(0, 40))) } else { None };
+            match self.rng.below(12) {
+                0..=4 => {
+                    let kw = if self.rng.chance(3, 5) { "if" } else { "unless" };
+                    let d = 1 + self.rng.below(2) as u32;
+                    let c = self.jump_cond(d);
+                    let mut v = vec![Sexp::atom(kw), c, Sexp::atom(l)];
+                    if let Some(t) = time { v.push(t); }
+                    out.push(Sexp::app("ifgoto", v));
+                },
+                5 => {
+                    let kw = if self.rng.chance(2, 3) { "if" } else { "unless" };
+                    let c = self.predec_cond();
+                    let mut v = vec![Sexp::atom(kw), c, Sexp::atom(l)];
+                    if let Some(t) = time { v.push(t); }
+                    out.push(Sexp::app("ifgoto", v));
+                },
+                6 => { let mut v = vec![Sexp::atom(l)]; if let Some(t) = time { v.push(t); } out.push(Sexp::app("goto", v)); },
+                7 => {
+                    // a nested block with its own locals and a jump inside
+                    self.scope.push(vec![]);
+                    let mut inner = vec![];
+                    self.stmt(0, &mut inner);
+                    let kw = if self.rng.chance(1, 2) { "if" } else { "unless" };
+                    let c = self.jump_cond(1);
+                    inner.push(Sexp::app("ifgoto", vec![Sexp::atom(kw), c, Sexp::atom(l)]));
+                    self.stmt(0, &mut inner);
+                    self.scope.pop();
+                    out.push(Sexp::app("block", inner));
+                },
+                _ => self.stmt(0, &mut out),
+            }
+        }
+        while let Some(l) = pending.pop() { out.push(Sexp::app("label", vec![Sexp::atom(l)])); }
+        // rarely: a jump to a label that does not exist, or a label defined twice (both are diagnostics)
+        if self.rng.chance(1, 60) { out.push(Sexp::app("goto", vec![Sexp::atom("lab999")])); }
+        if self.rng.chance(1, 60) { out.push(Sexp::app("label", vec![Sexp::atom(labels[0].clone())])); }
+        out
     }
 
     pub fn body(&mut self, n: usize, depth: u32) -> Vec<Sexp> {
